@@ -180,6 +180,9 @@ def run(ck):
                     'with crops at lattice steps; path case = (family, T0, T1) on the grid of joints and mid points incl. wrap-around')
     ck.assumptions += ['Bezier split control points compared exactly (integer control points, t = k/8); crops by points (1e-9); arcs 1e-6']
     ck.tlc('Bezier', 'Bezier_MC.cfg', need_actions=['Step'])
+    # the degree <= 3 identities over unbounded integers (symbolic), and a perturbed one refuted (non-vacuity)
+    ck.apalache('MC_Ident', 'Inv')
+    ck.apalache('MC_Ident', 'Wrong', expect_error=True)
     mc = open(pm.__file__.rsplit('/', 2)[0] + '/spec/ArcLattice_MC.cfg').read()
     ck.tlc('ArcLattice', mc.replace('DlsAll', 'DlsSome').replace('PhisA', 'PhisB').replace('CHECK_DEADLOCK', 'INVARIANT CropOK\nCHECK_DEADLOCK'), timeout=3000)
     ck.tlc('TParam', 'TParam_MC.cfg', need_actions=['Advance'])
